@@ -28,6 +28,11 @@ def load_contracts(ns):
 
     def LEMMA(*a, **kw):
         pass
+
+    def TABLE(mod, name, **kw):
+        kw['table'] = True
+        contracts[f'{mod}:{name}'] = kw
+    ns['TABLE'] = TABLE
     ns['SPEC'] = SPEC
     ns['LEMMA'] = LEMMA
     for fn in sorted(os.listdir(cdir)):
@@ -35,6 +40,10 @@ def load_contracts(ns):
             src = open(os.path.join(cdir, fn)).read()
             exec(compile(src, fn, 'exec'), ns)
     return contracts
+
+
+def _wrap1(f):
+    return lambda result: f(result)
 
 
 def clauses_of(con):
@@ -144,6 +153,9 @@ def instances_for(key, pool, harvested):
     mod, qual = key.split(':')
     m = importlib.import_module(mod)
     parts = qual.split('.')
+    custom = getattr(pool, 'CUSTOM', {}).get(key)
+    if custom is not None:
+        return custom(m)
     if len(parts) == 1:
         fn = getattr(m, parts[0])
         import inspect
@@ -209,11 +221,17 @@ def main():
         if con is None:
             continue
         try:
-            insts = instances_for(key, pool, harvested)
+            insts = [] if con.get('table') else instances_for(key, pool, harvested)
         except Exception as e:
             per_func[key] = f'no instances: {e}'
             continue
         n_ok = 0
+        if con.get('table'):
+            mod, name = key.split(':')
+            value = getattr(importlib.import_module(mod), name)
+            insts = [((lambda value=value: value), [], (), f'module-level value {key}')]
+            con = dict(con)
+            con['ensures'] = [(_wrap1(c[0]), c[1], c[2] if len(c) > 2 else 'table') for c in con.get('ensures', [])]
         for fn, params, args, desc in insts[:a.max]:
             total += 1
             try:
